@@ -234,74 +234,6 @@ Qed.
 Lemma failed_step_changes_nothing s m : step_code s m <> 0 -> step s m = s.
 Proof. unfold step_code, step. destruct (exec s m); [intros H; exfalso; apply H; reflexivity|reflexivity|reflexivity]. Qed.
 
-(** ** sequences of conversions: native supply + ERC20 supply of a bound token is constant *)
-Definition conversion (m : msg) : bool :=
-  match m with
-  | ToErc20 _ _ _ _ | FromErc20 _ _ _ _ | EvmMode _ => true
-  | _ => false
-  end.
-
-(** no two tokens share an ERC20 contract *)
-Definition ContractInj (s : state) : Prop :=
-  forall d1 d2 t1 t2, token_by_minunit s d1 = Some t1 -> token_by_minunit s d2 = Some t2 ->
-    t_contract t1 = t_contract t2 -> t_contract t1 <> 0 -> d1 = d2.
-
-Lemma token_by_minunit_same s s' d : tokens s' = tokens s -> minunits s' = minunits s ->
-  token_by_minunit s' d = token_by_minunit s d.
-Proof. intros Ht Hm. unfold token_by_minunit, token_by_symbol. rewrite Ht, Hm. reflexivity. Qed.
-
-Lemma conversion_step s m d t :
-  NoDup (keys (erc20 s)) -> ContractInj s -> conversion m = true ->
-  token_by_minunit s d = Some t -> t_contract t <> 0 ->
-  tokens (step s m) = tokens s /\ minunits (step s m) = minunits s
-  /\ supply_of (step s m) d + erc20_total (step s m) (t_contract t) = supply_of s d + erc20_total s (t_contract t).
-Proof.
-  intros Hnd CI Hc Ht Hc0.
-  destruct (step_cases s m) as [(s' & E & ->)|[_ ->]]; [|repeat split].
-  destruct m; try discriminate Hc; simpl in Hc.
-  - pose proof E as E'. apply exec_inv in E'. destruct E' as [_ E']. simpl in E'.
-    apply do_to_erc20_inv in E'. destruct E' as (t0' & s1 & s2 & _ & _ & _ & Hs & Hb & Hs').
-    assert (Hbo : bank_only s s2) by (eapply bank_only_trans; [eapply bank_send_only|eapply bank_burn_only]; eassumption).
-    apply bank_only_fields in Hbo. destruct Hbo as (Htk & Hmu & _).
-    split; [subst s'; simpl; assumption|]. split; [subst s'; simpl; assumption|].
-    destruct (to_erc20_effect _ _ _ _ _ _ E Hnd) as (t0 & Ht0 & Hc00 & _ & Hsup & _ & _ & Htot).
-    rewrite Hsup, Htot. unfold ind.
-    destruct (eqb d denom) eqn:E1.
-    + apply eqb_eq in E1. subst denom. rewrite Ht in Ht0. inversion Ht0; subst t0. rewrite Z.eqb_refl. lia.
-    + destruct (t_contract t0 =? t_contract t) eqn:E2; [|lia].
-      apply Z.eqb_eq in E2. exfalso. apply eqb_neq in E1. apply E1. symmetry.
-      apply (CI denom d t0 t Ht0 Ht E2 Hc00).
-  - pose proof E as E'. apply exec_inv in E'. destruct E' as [_ E']. simpl in E'.
-    apply do_from_erc20_inv in E'. destruct E' as (t0' & s2 & _ & _ & _ & _ & Hm & Hp).
-    apply bank_mint_only, bank_only_fields in Hm. destruct Hm as (Htk1 & Hmu1 & _).
-    apply bank_pay_only, bank_only_fields in Hp. destruct Hp as (Htk2 & Hmu2 & _). simpl in Htk1, Hmu1.
-    split; [congruence|]. split; [congruence|].
-    destruct (from_erc20_effect _ _ _ _ _ _ E Hnd) as (t0 & Ht0 & Hc00 & _ & _ & Hsup & _ & _ & Htot).
-    rewrite Hsup, Htot. unfold ind.
-    destruct (eqb d denom) eqn:E1.
-    + apply eqb_eq in E1. subst denom. rewrite Ht in Ht0. inversion Ht0; subst t0. rewrite Z.eqb_refl. lia.
-    + destruct (t_contract t0 =? t_contract t) eqn:E2; [|lia].
-      apply Z.eqb_eq in E2. exfalso. apply eqb_neq in E1. apply E1. symmetry.
-      apply (CI denom d t0 t Ht0 Ht E2 Hc00).
-  - apply exec_inv in E. destruct E as [_ E]. simpl in E. inversion E. repeat split.
-Qed.
-
-Lemma conversions_conserve ms : forall s d t,
-  NoDup (keys (erc20 s)) -> ContractInj s -> forallb conversion ms = true ->
-  token_by_minunit s d = Some t -> t_contract t <> 0 ->
-  token_by_minunit (run s ms) d = Some t
-  /\ supply_of (run s ms) d + erc20_total (run s ms) (t_contract t) = supply_of s d + erc20_total s (t_contract t).
-Proof.
-  induction ms as [|m ms IH]; intros s d t Hnd CI Hc Ht Hc0; simpl; [split; [assumption|reflexivity]|].
-  simpl in Hc. apply Bool.andb_true_iff in Hc. destruct Hc as [Hm Hms].
-  destruct (conversion_step s m d t Hnd CI Hm Ht Hc0) as (Htk & Hmu & Heq).
-  assert (CI' : ContractInj (step s m)).
-  { intros d1 d2 t1 t2. rewrite !(token_by_minunit_same _ _ _ Htk Hmu). apply CI. }
-  assert (Ht' : token_by_minunit (step s m) d = Some t) by (rewrite (token_by_minunit_same _ _ _ Htk Hmu); assumption).
-  destruct (IH (step s m) d t (step_erc20_nodup s m Hnd) CI' Hms Ht' Hc0) as [H1 H2].
-  split; [assumption|]. rewrite H2. assumption.
-Qed.
-
 (** ** the fee-token swap message *)
 Lemma swapfee_effect s sender receiver denom amt s' : IdInv s ->
   exec s (SwapFee sender receiver denom amt) = ROk s' ->
@@ -389,22 +321,99 @@ Proof.
       intros H. inversion H. simpl. lia.
     + intros sym1 sym2 t1 t2. unfold genesis. simpl.
       destruct (eq_dec sym1 STAKE) as [->|]; [|discriminate]. destruct (eq_dec sym2 STAKE) as [->|]; [|discriminate]. reflexivity.
+    + intros c sym. unfold genesis. simpl. discriminate.
   - simpl. constructor.
 Qed.
 
-Lemma RegInv_ContractInj s : RegInv s -> ContractInj s.
+(** ** sequences of conversions: native supply + ERC20 supply of a bound token is constant *)
+Definition conversion (m : msg) : bool :=
+  match m with
+  | ToErc20 _ _ _ _ | FromErc20 _ _ _ _ | HookToNative _ _ _ _ | EvmMode _ => true
+  | _ => false
+  end.
+
+(** no two tokens share an ERC20 contract *)
+Lemma RegInv_contract_inj s d1 d2 t1 t2 : RegInv s ->
+  token_by_minunit s d1 = Some t1 -> token_by_minunit s d2 = Some t2 ->
+  t_contract t1 = t_contract t2 -> t_contract t1 <> 0 -> d1 = d2.
 Proof.
-  intros [I C _] d1 d2 t1 t2 H1 H2 Heq Hnz.
+  intros [I C _] H1 H2 Heq Hnz.
   destruct (token_by_minunit_spec s d1 t1 I H1) as (sy1 & _ & G1 & _ & M1).
   destruct (token_by_minunit_spec s d2 t2 I H2) as (sy2 & _ & G2 & _ & M2).
   assert (sy1 = sy2) by (eapply (ctr_inj s C); eassumption). subst sy2.
   rewrite G1 in G2. inversion G2; subst t2. congruence.
 Qed.
 
-Lemma conversions_conserve_reachable ms s d t :
+Lemma token_by_minunit_same s s' d : tokens s' = tokens s -> minunits s' = minunits s ->
+  token_by_minunit s' d = token_by_minunit s d.
+Proof. intros Ht Hm. unfold token_by_minunit, token_by_symbol. rewrite Ht, Hm. reflexivity. Qed.
+
+Lemma conversion_step s m d t :
+  RegInv s -> conversion m = true -> token_by_minunit s d = Some t -> t_contract t <> 0 ->
+  tokens (step s m) = tokens s /\ minunits (step s m) = minunits s
+  /\ supply_of (step s m) d + erc20_total (step s m) (t_contract t) = supply_of s d + erc20_total s (t_contract t).
+Proof.
+  intros R Hc Ht Hc0. pose proof (reg_nodup s R) as Hnd. pose proof (reg_id s R) as I. pose proof (reg_ctr s R) as C.
+  destruct (step_cases s m) as [(s' & E & ->)|[_ ->]]; [|repeat split].
+  destruct m; try discriminate Hc; simpl in Hc.
+  - (* ToErc20 *)
+    pose proof E as E'. apply exec_inv in E'. destruct E' as [_ E']. simpl in E'.
+    apply do_to_erc20_inv in E'. destruct E' as (t0' & s1 & s2 & _ & _ & _ & Hs & Hb & Hs').
+    assert (Hbo : bank_only s s2) by (eapply bank_only_trans; [eapply bank_send_only|eapply bank_burn_only]; eassumption).
+    apply bank_only_fields in Hbo. destruct Hbo as (Htk & Hmu & _).
+    split; [subst s'; simpl; assumption|]. split; [subst s'; simpl; assumption|].
+    destruct (to_erc20_effect _ _ _ _ _ _ E Hnd) as (t0 & Ht0 & Hc00 & _ & Hsup & _ & _ & Htot).
+    rewrite Hsup, Htot. unfold ind.
+    destruct (eqb d denom) eqn:E1.
+    + apply eqb_eq in E1. subst denom. rewrite Ht in Ht0. inversion Ht0; subst t0. rewrite Z.eqb_refl. lia.
+    + destruct (t_contract t0 =? t_contract t) eqn:E2; [|lia].
+      apply Z.eqb_eq in E2. exfalso. apply eqb_neq in E1. apply E1. symmetry.
+      apply (RegInv_contract_inj s denom d t0 t R Ht0 Ht E2 Hc00).
+  - (* FromErc20 *)
+    pose proof E as E'. apply exec_inv in E'. destruct E' as [_ E']. simpl in E'.
+    apply do_from_erc20_inv in E'. destruct E' as (t0' & s2 & _ & _ & _ & _ & Hm & Hp).
+    apply bank_mint_only, bank_only_fields in Hm. destruct Hm as (Htk1 & Hmu1 & _).
+    apply bank_pay_only, bank_only_fields in Hp. destruct Hp as (Htk2 & Hmu2 & _). simpl in Htk1, Hmu1.
+    split; [congruence|]. split; [congruence|].
+    destruct (from_erc20_effect _ _ _ _ _ _ E Hnd) as (t0 & Ht0 & Hc00 & _ & _ & Hsup & _ & _ & Htot).
+    rewrite Hsup, Htot. unfold ind.
+    destruct (eqb d denom) eqn:E1.
+    + apply eqb_eq in E1. subst denom. rewrite Ht in Ht0. inversion Ht0; subst t0. rewrite Z.eqb_refl. lia.
+    + destruct (t_contract t0 =? t_contract t) eqn:E2; [|lia].
+      apply Z.eqb_eq in E2. exfalso. apply eqb_neq in E1. apply E1. symmetry.
+      apply (RegInv_contract_inj s denom d t0 t R Ht0 Ht E2 Hc00).
+  - (* EvmMode *)
+    apply exec_inv in E. destruct E as [_ E]. simpl in E. inversion E. repeat split.
+  - (* HookToNative *)
+    pose proof E as E'. apply exec_inv in E'. destruct E' as [_ E']. simpl in E'.
+    apply do_hook_inv in E'. destruct E' as (sym0 & t0' & s2 & _ & _ & _ & _ & _ & _ & Hm & Hp).
+    apply bank_mint_only, bank_only_fields in Hm. destruct Hm as (Htk1 & Hmu1 & _).
+    apply bank_pay_only, bank_only_fields in Hp. destruct Hp as (Htk2 & Hmu2 & _). simpl in Htk1, Hmu1.
+    split; [congruence|]. split; [congruence|].
+    destruct (hook_to_native_effect _ _ _ _ _ _ E Hnd) as (sym & t0 & Hci & Hg0 & _ & _ & Hsup & _ & _ & Htot).
+    cbv zeta in Hsup. rewrite Hsup, Htot. unfold ind.
+    destruct (token_by_minunit_spec s d t I Ht) as (sy & _ & G & _ & M).
+    destruct (ctr_idx s C c sym Hci) as (Hcnz & t1 & Hg1 & Hc1). rewrite Hg0 in Hg1. inversion Hg1; subst t1.
+    destruct (eqb d (t_minunit t0)) eqn:E1.
+    + apply eqb_eq in E1.
+      assert (sym = sy) by (eapply minunit_injective; [exact I|exact Hg0|exact G|congruence]). subst sy.
+      assert (Hct : t_contract t = c) by congruence. rewrite Hct, Z.eqb_refl. lia.
+    + destruct (c =? t_contract t) eqn:E2; [|lia].
+      apply Z.eqb_eq in E2. exfalso. apply eqb_neq in E1. apply E1.
+      assert (sym = sy).
+      { apply (ctr_inj s C sym sy t0 t Hg0 G); congruence. }
+      subst sy. rewrite Hg0 in G. inversion G; subst t0. symmetry. exact M.
+Qed.
+
+Lemma conversions_conserve_reachable ms : forall s d t,
   RegInv s -> forallb conversion ms = true -> token_by_minunit s d = Some t -> t_contract t <> 0 ->
   token_by_minunit (run s ms) d = Some t
   /\ supply_of (run s ms) d + erc20_total (run s ms) (t_contract t) = supply_of s d + erc20_total s (t_contract t).
 Proof.
-  intros R. apply conversions_conserve; [apply (reg_nodup s R)|apply RegInv_ContractInj; assumption].
+  induction ms as [|m ms IH]; intros s d t R Hc Ht Hc0; simpl; [split; [assumption|reflexivity]|].
+  simpl in Hc. apply Bool.andb_true_iff in Hc. destruct Hc as [Hm Hms].
+  destruct (conversion_step s m d t R Hm Ht Hc0) as (Htk & Hmu & Heq).
+  assert (Ht' : token_by_minunit (step s m) d = Some t) by (rewrite (token_by_minunit_same _ _ _ Htk Hmu); assumption).
+  destruct (IH (step s m) d t (step_RegInv s m R) Hms Ht' Hc0) as [H1 H2].
+  split; [assumption|]. rewrite H2. assumption.
 Qed.
